@@ -197,6 +197,18 @@ def rightBound (s : St) (lfoff lflen e : Nat) : Option Nat :=
     | some r => some r
     | none => if maxoff = nbits s ∧ e < nbits s then some (nbits s) else none
 
+/-- left merge of `_fsm_blk_deallocate_lw`: the free extent that ends at `off` is removed from the index;
+    result: state, offset and length of the extent to insert -/
+def mergeLeft (s : St) (off len : Nat) : St × Nat × Nat :=
+  match prevSet s.bits 0 off with
+  | some l => if off > l + 1 then (delFbk s (l + 1) (off - (l + 1)), l + 1, len + (off - (l + 1))) else (s, off, len)
+  | none => if off > 0 then (delFbk s 0 off, 0, len + off) else (s, off, len)
+
+/-- right merge: the free extent `[e, r)` is removed from the index -/
+def mergeRight (s : St) (e klen : Nat) : Option Nat → St × Nat
+  | some r => if r > e then (delFbk s e (r - e), klen + (r - e)) else (s, klen)
+  | none => (s, klen)
+
 /-- `_fsm_blk_deallocate_lw` -/
 def deallocLw (s : St) (off len : Nat) : St × Rc :=
   let lfoff := s.lfoff
@@ -206,16 +218,8 @@ def deallocLw (s : St) (off len : Nat) : St × Rc :=
   let (s, rc) := setBits s off len false
   if rc ≠ .ok then (s, rc) else
   let right := rightBound s lfoff lflen e
-  -- left merge
-  let (s, koff, klen) :=
-    match prevSet s.bits 0 off with
-    | some l => if off > l + 1 then (delFbk s (l + 1) (off - (l + 1)), l + 1, len + (off - (l + 1))) else (s, off, len)
-    | none => if off > 0 then (delFbk s 0 off, 0, len + off) else (s, off, len)
-  -- right merge
-  let (s, klen) :=
-    match right with
-    | some r => if r > e then (delFbk s e (r - e), klen + (r - e)) else (s, klen)
-    | none => (s, klen)
+  let (s, koff, klen) := mergeLeft s off len
+  let (s, klen) := mergeRight s e klen right
   (putFbk s koff klen, .ok)
 
 /-! ## aligned allocation, bitmap relocation -/
